@@ -193,6 +193,56 @@ mod imp {
         }
     }
 
+    type LineShape = (usize, i32, u8, Vec<(i32, Option<u64>)>);
+    const LINE_KEYS: [u64; 2] = [0x9E37_79B9_7F4A_7C15, 2];
+    /// (depth, value, bound type, [(value, move bits) per ply]): every bound type with and without a
+    /// move in the stored line, lines of one to three plies
+    fn line_shapes() -> Vec<LineShape> {
+        let (m1, m2, m3) = (0x0000_0000_0012_3456u64, 0x0000_00ff_0065_4321u64, 0x7000_0000_0000_0001u64);
+        vec![
+            (2, 10, 0, vec![(10, Some(m1)), (-10, Some(m2)), (10, None)]),
+            (3, -5, 2, vec![(-5, None)]),
+            (1, 7, 1, vec![(7, Some(m3))]),
+            (4, 3, 2, vec![(3, Some(m2)), (-3, None)]),
+            (0, 0, 0, vec![(0, None)]),
+            (6, -40, 1, vec![(-41, None)]),
+        ]
+    }
+    fn line_ops_text(hist: &[usize]) -> Vec<String> {
+        let n = line_shapes().len();
+        hist.iter().map(|&op| if op == LINE_KEYS.len() * n { "clear".to_string() } else { format!("put(key{}, shape{})", op / n, op % n) }).collect()
+    }
+    /// op code: key index * shapes + shape index; keys * shapes = clear. The table is cleared first.
+    fn line_history_problem(t: &mut inkayaku_engine_core::verif::SearchTable, hist: &[usize]) -> Option<String> {
+        let shapes = line_shapes();
+        let clear_op = LINE_KEYS.len() * shapes.len();
+        t.clear();
+        let mut want: [Option<usize>; 2] = [None, None];
+        for &op in hist {
+            if op >= clear_op {
+                t.clear();
+                want = [None, None];
+            } else {
+                let (ki, si) = (op / shapes.len(), op % shapes.len());
+                let sh = &shapes[si];
+                t.put_line(LINE_KEYS[ki], sh.0, sh.1, sh.2, &sh.3);
+                want[ki] = Some(si);
+            }
+        }
+        for ki in 0..LINE_KEYS.len() {
+            let got = t.get_line(LINE_KEYS[ki]);
+            let exp = want[ki].map(|si| (shapes[si].0, shapes[si].1, shapes[si].2, shapes[si].3.clone(), LINE_KEYS[ki]));
+            if got != exp {
+                return Some(format!("lookup_differs_line: get({:#x}) = {:?}, stored last: {:?} ((depth, value, bound, [(value, move bits) per ply], key))", LINE_KEYS[ki], got, exp));
+            }
+        }
+        let n_want = want.iter().filter(|w| w.is_some()).count();
+        if t.len() != n_want {
+            return Some(format!("len() = {} but {} entries stored", t.len(), n_want));
+        }
+        None
+    }
+
     fn sig_of(problem: &str) -> String {
         problem.split(|c| c == ':' || c == ' ').next().unwrap_or("problem").to_string()
     }
@@ -363,6 +413,36 @@ mod imp {
                 }
             });
         }
+        // the same object with entries that carry whole LINES (a value and a move per ply, as the search
+        // stores them): every operation sequence up to depth 4 (5) over 2 keys x 6 entry shapes — every
+        // bound type with and without a move in the stored line, lines of 0..3 plies — + clear; after
+        // every operation each key must give back exactly the entry stored last under it, line included
+        // (the search plays the stored line's move and returns its value on a table hit)
+        let line_steps = AtomicU64::new(0);
+        {
+            use inkayaku_engine_core::verif::SearchTable;
+            let n_ops = LINE_KEYS.len() * line_shapes().len() + 1;
+            let depth = if tier == Tier::Quick { 4 } else { 5 };
+            let firsts: Vec<usize> = (0..n_ops).collect();
+            par_map(&firsts, |&f| {
+                let mut t = SearchTable::new();
+                let mut stack: Vec<Vec<usize>> = vec![vec![f]];
+                while let Some(hist) = stack.pop() {
+                    line_steps.fetch_add(1, std::sync::atomic::Ordering::Relaxed);
+                    if let Some(pr) = line_history_problem(&mut t, &hist) {
+                        rep.report(format!("search_table_lines:{}", sig_of(&pr)), json!({"kind": "search_table_line_history", "op_codes": hist, "ops": line_ops_text(&hist), "problem": pr}));
+                        continue;
+                    }
+                    if hist.len() < depth {
+                        for op in 0..n_ops {
+                            let mut h = hist.clone();
+                            h.push(op);
+                            stack.push(h);
+                        }
+                    }
+                }
+            });
+        }
         // clear-count sweep: a key stored once, then N clears each preceded by a store of another key
         // (so that every clear has something to clear), N at every magnitude up to 2^17+1; afterwards
         // the first key must be gone, the table empty, and a fresh store must work
@@ -451,6 +531,7 @@ mod imp {
         cov.set("capacity_sweep", json!({"capacities": caps_swept, "operations": sweep_ops.load(std::sync::atomic::Ordering::Relaxed), "secs": t1.elapsed().as_secs_f64(), "history": "capacity+5 distinct puts, lookups of the first / last / power-of-two keys, overwrites in the full table, clear"}));
         cov.set("declared_capacity_probe", json!({"capacities": declared.len(), "largest": declared.last(), "operations": probe_ops.load(std::sync::atomic::Ordering::Relaxed), "secs": declared_secs, "history": "min(capacity+3, 3000) distinct puts; len, reported fill level against entries / configured capacity, oldest key still present"}));
         cov.set("search_table_histories", json!({"what": "the transposition table object a Search owns, through the TranspositionTable trait", "histories": wrapper_steps.load(std::sync::atomic::Ordering::Relaxed), "keys": 3, "entry_shapes": 3, "secs": wrapper_secs}));
+        cov.set("search_table_line_histories", json!({"what": "entries that carry whole lines (value and move per ply), every bound type with and without a move", "histories": line_steps.load(std::sync::atomic::Ordering::Relaxed), "keys": 2, "entry_shapes": 6}));
         cov.set("unrolled_histories_without_dedup", json!({"capacity": ucap, "depth": udepth, "histories": unrolled, "secs": t0.elapsed().as_secs_f64()}));
         cov.set("explanation", json!("reachable state space of the real table (deduplicated on its own queue+map contents) explored to fixpoint for each capacity with capacity+2 keys and 2 values; the table only compares keys for equality, so capacity+2 keys let 'present', 'evicted and re-inserted' and 'never seen' coexist"));
         cov.samples = SAMPLES.lock().unwrap().clone();
@@ -578,6 +659,22 @@ mod imp {
                     }
                 }
                 Err(m) => rep.report(format!("panic:{}", kind), json!({"kind": kind, "capacity": cap, "panic": m})),
+            }
+            println!("replay: {} violating case(s) reproduced", rep.violation_count());
+            let mut cov = Coverage::new();
+            cov.states = 1;
+            return finish(&rep, Tier::Quick, cov, started);
+        }
+        if kind == "search_table_line_history" {
+            let hist: Vec<usize> = case["op_codes"].as_array().cloned().unwrap_or_default().iter().map(|v| v.as_u64().unwrap_or(0) as usize).collect();
+            println!("history on the table a Search owns: {:?}", line_ops_text(&hist));
+            match guarded(|| line_history_problem(&mut inkayaku_engine_core::verif::SearchTable::new(), &hist)) {
+                Ok(Some(pr)) => {
+                    println!("{}", pr);
+                    rep.report(format!("search_table_lines:{}", sig_of(&pr)), json!({"kind": kind, "op_codes": hist, "ops": line_ops_text(&hist), "problem": pr}));
+                }
+                Ok(None) => {}
+                Err(m) => rep.report("panic:search_table_lines".to_string(), json!({"kind": kind, "op_codes": hist, "panic": m})),
             }
             println!("replay: {} violating case(s) reproduced", rep.violation_count());
             let mut cov = Coverage::new();
